@@ -3881,6 +3881,10 @@ class Shape(SVGElement, GraphicObject, Transformable):
                 segment_pos = (position - segment_start) / (segment_end - segment_start)
                 break
             segment_start = segment_end
+        else:
+            # The fractions are floating point and may sum to slightly less than 1: the position
+            # lies beyond all of them, at the end of the last segment.
+            segment_pos = 1.0
         return segment.point(segment_pos)
 
     def length(self, error=ERROR, min_depth=MIN_DEPTH):
